@@ -16,9 +16,13 @@ def valid_json(b):
         return False
 
 
+BAD_YAML = ['a: [1, 2', 'a: b: c: d', '\t- x\n\t\ty', 'key: "unterminated', '{a: 1', 'a:\n  - b\n c',
+            'settings: *bsae\n', 'a: &x 1\nb: *y\n', '- *second\n', 'ok: 1\n---\nlater: *nowhere\n', 'enabled: !!bool maybe\n']
+
+
 def make_spec(g, allow):
     r = g.r
-    h = gen_history(g, allow + ('many', 'badjson'), max_tests=4, max_calls=6,
+    h = gen_history(g, allow + ('many', 'badjson', 'badyaml'), max_tests=4, max_calls=6,
                     kinds=['snap'] * 6 + ['json'] * 2 + ['yaml'])
     # executions: each test 1..3 times (the -count path), later executions may change values
     execs = []
@@ -30,6 +34,9 @@ def make_spec(g, allow):
                     # the document that was rejected in the earlier execution is fine this time (a response that
                     # was truncated once): this execution addresses the same slots as if the other had passed
                     cs.append((cfgno, Call('json', g.json_text(g.json_value()).encode(), c.form if c.form != 'v' else 's')))
+                elif rep and c.kind == 'yaml' and c.payload.decode('utf-8', 'replace') in BAD_YAML and r.random() < 0.6:
+                    # (the same for a YAML document that was rejected the first time)
+                    cs.append((cfgno, Call('yaml', g.yaml_text().encode(), c.form)))
                 elif rep and r.random() < 0.3:
                     m, _ = mutate_call(g, c)
                     cs.append((cfgno, m or c))
